@@ -15,19 +15,19 @@ import numpy as np
 from vlib import inputs, refmodel
 
 
-def gen_table(rng, c):
+def gen_table(rng, c, many=False):
     """Rows + the expected kept set.  Mutation classes: ok, missing in a sample, zero major CN in a sample, duplicated
     (both copies usable), fully zero CN, and a usable row accompanied by an extra row with zero major CN (kept: each
     sample still has exactly one row with a positive major copy number)."""
-    n_mut = int(rng.integers(2, 9))
-    D = int(rng.integers(1, 4))
+    n_mut = int(rng.integers(2, 9)) if not many else int(rng.integers(270, 330))
+    D = int(rng.integers(1, 4)) if not many else int(rng.integers(1, 3))
     if c % 4 == 1:
         # purely numeric sample ids whose numeric order differs from their string order ("10" < "2")
         samples = [str(x) for x in rng.permutation([2, 10, 33, 9, 100, 7])[:D]]
     else:
         samples = ["T%d" % s for s in rng.permutation(9)[:D]]
     numeric_ids = c % 5 == 0
-    ids = list(rng.permutation(50)[:n_mut] + 1) if numeric_ids else ["mut_%s" % "".join(rng.choice(list("abcxyz"), 3)) + str(i) for i in range(n_mut)]
+    ids = list(rng.permutation(max(50, 2 * n_mut))[:n_mut] + 1) if numeric_ids else ["mut_%s" % "".join(rng.choice(list("abcxyz"), 3)) + str(i) for i in range(n_mut)]
     rows = []
     kept = []
     classes = {}
@@ -80,7 +80,10 @@ def load_task(task):
     try:
         for c in range(task["count"]):
             rng = np.random.default_rng([task["seed"], task["shard"], c, 17])
-            rows, samples, kept, classes = gen_table(rng, c)
+            many = c == 3 and task["shard"] % 4 == 0
+            rows, samples, kept, classes = gen_table(rng, c, many=many)
+            if many:
+                part.count("tables_with_more_than_256_mutations")
             opt_cols = c % 4  # 0 none, 1 tumour_content, 2 error_rate, 3 both
             tc = {s: float(np.round(rng.uniform(0.2, 1.0), 3)) for s in samples}
             for r in rows:
